@@ -433,8 +433,10 @@ fn handle_diff<T: Clone>(
 
                 // There is space for this new item.
                 res.push(VectorDiff::Insert {
-                    // Subtract 1 because `insert` adds a value compared to `previous_length`.
-                    index: (index - index_of_limit).saturating_sub(1),
+                    // If the view was full, its first value has just been popped: shift the
+                    // index by 1 to the left. Otherwise `index_of_limit` is 0 and the index
+                    // in the view is the index in the source.
+                    index: if is_full { index - index_of_limit - 1 } else { index },
                     value,
                 });
             } else {
